@@ -25,11 +25,15 @@ RULES = {
     "together, every insertion goes through the one splicing primitive, a present value is unlinked before it is "
     "re-linked, the anchor's successor is read after that unlinking, and exactly four link writes splice the new box - "
     "otherwise len(graph), iteration and node.graph disagree about which nodes the graph holds",
+    "R7": "per-occurrence accounting: the ownership hooks (_set_graph / _maybe_unset_graph) count occurrences, so a hook call is "
+    "never filtered by a test on the element it is applied to (membership in the other sequence, identity with another "
+    "element …): between the hook call and its function no `if` mentions the hook's argument, isinstance dispatch excepted - "
+    "a value listed twice and released once keeps its is_graph_input/is_graph_output flag after it left the list",
     "R6": "bookkeeping survives a rejected call (C06's analysis restricted to the use-def / ownership fields): in every "
     "public mutator, no write to a producer link, output index, use list, ownership flag, owning graph, node input/output "
     "tuple or node list precedes a point that can still reject - 'whether the individual calls succeed or raise'",
 }
-FLOORS = {"R1": 30, "R1b": 4, "R2": 70, "R3": 10, "R4": 4, "R5": 8, "R6": 40}
+FLOORS = {"R1": 30, "R1b": 4, "R2": 70, "R3": 10, "R4": 4, "R5": 8, "R6": 40, "R7": 12}
 EXPLANATION = (
     "Enumerates every method of collections.UserList/UserDict (parsed from the interpreter's own "
     "source) that writes self.data and checks how GraphInputs/GraphOutputs/GraphInitializers resolve "
@@ -747,6 +751,17 @@ def rule_r4(ctx):
                         a, b = cfg.nodes_containing(pre), cfg.nodes_containing(call)
                         if has and a and b and cfg.dominates(a[0], b[0]):
                             ok = True
+                        # … or for every element in an earlier loop over the same iterable (validate-then-commit)
+                        if has and not ok:
+                            from . import c06
+
+                            l1, it1 = c06._loop_of(pre, arg, f.node)
+                            l2, it2 = c06._loop_of(call, arg, f.node)
+                            if l1 is not None and l2 is not None and l1 is not l2 and it1 == it2 and isinstance(l1, ast.For) and not any(
+                                    isinstance(x, (ast.Break, ast.Continue, ast.Return)) for x in ast.walk(l1)):
+                                ln = [x for x in cfg.node_of(l1) if x.kind == "iter"]
+                                if ln and b and cfg.dominates(ln[0], b[0]):
+                                    ok = True
                     ctx.check("R4", f"{c.name}.{f.name}: {norm(call)}", ok, f, call,
                               f"sets {flag} on a value without testing producer() first "
                               "(an initializer/input with a producing node)",
@@ -872,7 +887,48 @@ def rule_per_instance_state(ctx):
     ctx.require(n >= 30, f"only {n} classes examined for class-level mutable state")
 
 
+def rule_r7(ctx, rule="R7", consequence=""):
+    m = ctx.repo.modules["onnx_ir._graph_containers"]
+    n = 0
+    for f in m.all_funcs:
+        if isinstance(f.node, ast.Lambda):
+            continue
+        for call in calls_in(f):
+            if not (is_self_call(call, HOOK_ADD) or is_self_call(call, HOOK_DEL)) or not call.args:
+                continue
+            n += 1
+            argnames = {x.id for x in ast.walk(call.args[0]) if isinstance(x, ast.Name)}
+            bad = None
+            p, child = getattr(call, "_parent", None), call
+            while p is not None and p is not f.node:
+                if isinstance(p, ast.If) and any(child is b or any(child is x for x in ast.walk(b)) for b in p.body + p.orelse):
+                    tests = p.test.values if isinstance(p.test, ast.BoolOp) else [p.test]
+                    for t in tests:
+                        inner = t.operand if isinstance(t, ast.UnaryOp) and isinstance(t.op, ast.Not) else t
+                        if isinstance(inner, ast.Call) and dotted_of(inner.func) == "isinstance":
+                            continue
+                        if isinstance(inner, ast.Compare) and len(inner.ops) == 1 and isinstance(inner.ops[0], (ast.Is, ast.IsNot)) \
+                                and isinstance(inner.comparators[0], ast.Constant) and inner.comparators[0].value is None:
+                            continue  # presence of an optional argument
+                        # `K in B` guarding a hook on B[K]: presence of the old element under that key, not a filter
+                        if isinstance(inner, ast.Compare) and len(inner.ops) == 1 and isinstance(inner.ops[0], ast.In) and any(
+                                isinstance(x, ast.Subscript) and norm(x.value) == norm(inner.comparators[0]) and norm(x.slice) == norm(inner.left)
+                                for x in ast.walk(call.args[0])):
+                            continue
+                        if argnames & {x.id for x in ast.walk(t) if isinstance(x, ast.Name)}:
+                            bad = bad or t
+                child, p = p, getattr(p, "_parent", None)
+            ctx.check(rule, f"{f.local}: {norm(call)} is applied to every occurrence (no filter on the element)", bad is None, f, bad if bad is not None else call,
+                      f"`{norm(call)}` runs only when `{norm(bad) if bad is not None else ''}` holds: the hooks count occurrences of a value in the list, so "
+                      "skipping one for some occurrences leaves the counter - and with it is_graph_input()/is_graph_output()/graph - out of step with "
+                      f"the list's content{consequence}",
+                      how="tests between the hook call and its function that mention the hook's argument (isinstance / `is None` excepted)",
+                      construct=f"filtered {norm(call)}")
+    ctx.require(n >= 12, f"only {n} ownership-hook call sites found in _graph_containers")
+
+
 def run(ctx):
+    rule_r7(ctx)
     rule_per_instance_state(ctx)
     rule_r6(ctx)
     from . import c11
